@@ -246,3 +246,28 @@ class PresentClf(object):
     """a frontend with the tag in the field: re-activation always finds it"""
     def sense(self, *targets, **options):
         return targets[0]
+
+
+class BlockClf(ExchangeClf):
+    """the RF link below ISO-DEP (C12): like ExchangeClf, and every block handed over must fit the card's frame
+    size (FSC - 2 octets EDC = PCB + at most FSC-3 information octets)"""
+    def __init__(self, limit):
+        ExchangeClf.__init__(self)
+        self.limit = limit
+
+    def exchange(self, data, timeout):
+        # S-blocks (WTX responses echo the card's own request) are exempt
+        require(len(data) <= self.limit or (len(data) >= 1 and data[0] >= 0xC0),
+                'block within the frame size of the card')
+        return ExchangeClf.exchange(self, data, timeout)
+
+
+class AtsClf(object):
+    """frontend during Type 4A activation: answers RATS with a given ATS"""
+    def __init__(self, ats, max_send, max_recv):
+        self.ats = ats
+        self.max_send_data_size = max_send
+        self.max_recv_data_size = max_recv
+
+    def exchange(self, data, timeout):
+        return bytearray(self.ats)
